@@ -11,8 +11,8 @@ MInit == PInit(0) /\ steps = 0
 Env ==
   \/ \E n \in 0..Cardinality(Keys) : Settle(n)
   \/ Cleared(0, 0)
-  \/ \E k \in Keys : Spawn(k) \/ Pop(k) \/ Poll(k)
-  \/ \E k \in Keys : Len(rq) < MaxQueue /\ Wake(k)
+  \/ \E k \in Keys : Spawn(k) \/ Pop(k) \/ Poll(k, 1 - curGen)
+  \/ \E k \in Keys, g \in {0, 1} : Len(rq) < MaxQueue /\ Wake(k, g)
   \/ Missing \/ AbortedTask
   \/ \E k \in Keys, r, l, f \in BOOLEAN : Polled(k, r, l, f)
   \/ \E nt \in 0..Cardinality(Keys) : Settled(0, 0, nt)
